@@ -38,7 +38,8 @@ pub fn run_child_limited(spec: &Value, dir: &Path, budget_s: u64, mem_limit_kb: 
         }
         Some(kb) => {
             let mut c = std::process::Command::new("sh");
-            c.arg("-c").arg(format!("ulimit -v {}; exec \"$0\" worker pp \"$1\"", kb)).arg(&exe).arg(&spec_path);
+            // (the stack is set to the usual 8 MiB as well: ./check raises it for the harness itself)
+            c.arg("-c").arg(format!("ulimit -s 8192; ulimit -v {}; exec \"$0\" worker pp \"$1\"", kb)).arg(&exe).arg(&spec_path);
             c
         }
     };
